@@ -88,6 +88,7 @@ type HarnessResult struct {
 	Nondet        []string       `json:"nondet_inputs"`
 	UnknownQ      int            `json:"unknown_queries"`
 	FallbackQ     int            `json:"fallback_queries"`
+	IntQ          int            `json:"int_mode_queries"`
 	InfeasibleEnd int            `json:"infeasible_paths"`
 }
 
@@ -123,6 +124,15 @@ type Exec struct {
 	siteCtr     map[string]int
 	bigVals     map[*Object]*Term
 	shapers     []shaper
+	skipIntr    map[string]bool
+	weightCtr   int
+	dumpCtr     int
+	spCtr       int
+	pcSyms      []map[int]bool
+	symCache    map[int]map[int]bool
+	ufIdx       map[string]int
+	lazyCount   int
+	pcUnchecked bool
 }
 
 func (x *Exec) where() string {
@@ -169,7 +179,7 @@ func (x *Exec) stack() string {
 }
 
 func (x *Exec) goPanic(kind, msg string) {
-	panic(goPanicSig{Kind: kind, Msg: msg, Site: x.where()})
+	panic(goPanicSig{Kind: kind, Msg: msg, Site: x.where() + " <- " + x.stack()})
 }
 
 func (x *Exec) abort(kind, msg string) {
@@ -199,7 +209,10 @@ func (x *Exec) addPC(c *Term) {
 			x.pcSet[a.ID] = true
 		}
 	}
-	x.sol.Assert(c)
+	// the conjunct is only defined in the solver (path scope); queries assert
+	// the slice of the path condition that is relevant to them
+	x.sol.DefineOnly(c)
+	x.pcSyms = append(x.pcSyms, x.symsOf(c))
 }
 
 // known reports whether c is syntactically decided by the path condition.
@@ -218,7 +231,20 @@ func (x *Exec) known(c *Term) (val, ok bool) {
 }
 
 func (x *Exec) check(extra ...*Term) Result {
+	sl := x.pcSlice(extra)
+	if x.cfg.Params["int_mode"] == 1 {
+		// integer rendering first: decides sum/overflow queries quickly
+		all := append(append([]*Term{}, sl...), extra...)
+		if r, _ := x.sol.CheckInt(all, 10000); r != Unknown {
+			x.res.Queries++
+			x.res.IntQ++
+			return r
+		}
+	}
 	x.sol.Push()
+	for _, c := range sl {
+		x.sol.Assert(c)
+	}
 	for _, e := range extra {
 		x.sol.Assert(e)
 	}
@@ -231,12 +257,121 @@ func (x *Exec) check(extra ...*Term) Result {
 	}
 	if d := time.Since(t0); x.cfg.Verbose && d > 2*time.Second {
 		fmt.Fprintf(os.Stderr, "slow query %.1fs -> %s at %s\n", d.Seconds(), r, x.where())
+		if dir := os.Getenv("SYMGO_DUMPSLOW"); dir != "" {
+			x.dumpCtr++
+			os.WriteFile(fmt.Sprintf("%s/slow-%d-%d.smt2", dir, os.Getpid(), x.dumpCtr), []byte(x.sol.Script()+"(check-sat)\n"), 0o644)
+		}
 	}
 	x.sol.Pop()
 	if r == Unknown {
 		x.res.UnknownQ++
 	}
 	return r
+}
+
+// symsOf returns the symbols (variables and uninterpreted function names) a
+// term depends on; cached per term.
+func (x *Exec) symsOf(t *Term) map[int]bool {
+	if s, ok := x.symCache[t.ID]; ok {
+		return s
+	}
+	out := map[int]bool{}
+	seen := map[int]bool{}
+	var rec func(u *Term)
+	rec = func(u *Term) {
+		if seen[u.ID] {
+			return
+		}
+		seen[u.ID] = true
+		switch u.Op {
+		case OpVar:
+			out[u.ID] = true
+		case OpUF:
+			// an application is related to other constraints through the
+			// variables of its arguments (congruence needs equal arguments);
+			// applications to constants have no variables and get their own symbol
+			allConst := true
+			for _, a := range u.Args {
+				if !a.IsConst() {
+					allConst = false
+				}
+			}
+			if allConst {
+				out[-1-u.ID] = true
+			}
+		}
+		for _, a := range u.Args {
+			rec(a)
+		}
+	}
+	rec(t)
+	if x.symCache == nil {
+		x.symCache = map[int]map[int]bool{}
+	}
+	x.symCache[t.ID] = out
+	return out
+}
+
+func (x *Exec) ufIndex(name string) int {
+	// hash family members share one symbol so that injectivity/disjointness
+	// reasoning sees all related applications
+	if f, ok := injFamily(name); ok {
+		name = f
+	}
+	if i, ok := x.ufIdx[name]; ok {
+		return i
+	}
+	if x.ufIdx == nil {
+		x.ufIdx = map[string]int{}
+	}
+	x.ufIdx[name] = len(x.ufIdx)
+	return x.ufIdx[name]
+}
+
+// slice returns the conjuncts of the path condition that share symbols
+// (transitively) with the extra terms; all of them when extra is empty.
+// Dropping the others is sound for satisfiability because the path condition
+// is kept satisfiable and the dropped part shares no symbol with the rest.
+func (x *Exec) pcSlice(extra []*Term) []*Term {
+	if len(extra) == 0 || x.cfg.Params["noslice"] == 1 {
+		return x.pc
+	}
+	syms := map[int]bool{}
+	for _, e := range extra {
+		for s := range x.symsOf(e) {
+			syms[s] = true
+		}
+	}
+	in := make([]bool, len(x.pc))
+	for changed := true; changed; {
+		changed = false
+		for i, cs := range x.pcSyms {
+			if in[i] {
+				continue
+			}
+			hit := false
+			for s := range cs {
+				if syms[s] {
+					hit = true
+					break
+				}
+			}
+			if hit {
+				in[i] = true
+				changed = true
+				for s := range cs {
+					syms[s] = true
+				}
+			}
+		}
+	}
+	var out []*Term
+	for i, c := range x.pc {
+		if in[i] {
+			out = append(out, c)
+		}
+	}
+	return out
 }
 
 // fork chooses among mutually exclusive alternatives; returns chosen index.
@@ -264,18 +399,40 @@ func (x *Exec) fork(conds []*Term) int {
 		return d
 	}
 	var feas []int
-	for k, i := range live {
-		if k == len(live)-1 && len(feas) == 0 && !x.pathUnknown {
-			// all others infeasible => this one must be feasible (PC is sat)
-			feas = append(feas, i)
-			break
-		}
-		r := x.check(conds[i])
-		if r != Unsat {
-			if r == Unknown {
-				x.pathUnknown = true
+	lazyK := x.cfg.Params["lazy_fork"]
+	if lazyK > 0 {
+		// lazy forking: take every syntactically live alternative without
+		// asking the solver; the path condition is checked for satisfiability
+		// every lazyK new decisions, at assertions, at panics and at Reach.
+		x.lazyCount++
+		feas = live
+		if x.lazyCount%lazyK == 0 {
+			feas = nil
+			for _, i := range live {
+				if r := x.check(conds[i]); r != Unsat {
+					if r == Unknown {
+						x.pathUnknown = true
+					}
+					feas = append(feas, i)
+				}
 			}
-			feas = append(feas, i)
+		} else {
+			x.pcUnchecked = true
+		}
+	} else {
+		for k, i := range live {
+			if k == len(live)-1 && len(feas) == 0 && !x.pathUnknown {
+				// all others infeasible => this one must be feasible (PC is sat)
+				feas = append(feas, i)
+				break
+			}
+			r := x.check(conds[i])
+			if r != Unsat {
+				if r == Unknown {
+					x.pathUnknown = true
+				}
+				feas = append(feas, i)
+			}
 		}
 	}
 	if len(feas) == 0 {
@@ -462,7 +619,7 @@ func (x *Exec) call(fv FuncV, args []Value, site ssa.Instruction) Value {
 		}
 		x.initDone[fn.Pkg] = true
 	}
-	if in, ok := intrinsics[name]; ok {
+	if in, ok := intrinsics[name]; ok && !x.skipIntr[name] {
 		return in(x, fv, args)
 	}
 	if o := fn.Origin(); o != nil {
@@ -1074,6 +1231,16 @@ func (x *Exec) cellsEq(a, b []Value) *Term {
 	var ra, rb []*Term
 	flush := func() {
 		if len(ra) > 0 {
+			// little-endian limb pairs (Currency{Lo,Hi}) that are the two halves of
+			// one wide term compare as that term
+			if len(ra) == 2 && ra[0].W == 64 && ra[1].W == 64 {
+				A, B := ts.Concat(ra[1], ra[0]), ts.Concat(rb[1], rb[0])
+				if A.Op != OpConcat || B.Op != OpConcat {
+					conj = append(conj, ts.Eq(A, B))
+					ra, rb = nil, nil
+					return
+				}
+			}
 			conj = append(conj, ts.Eq(ts.Concat(ra...), ts.Concat(rb...)))
 			ra, rb = nil, nil
 		}
@@ -1854,6 +2021,7 @@ func (x *Exec) resetPath() {
 	x.initDone = map[*ssa.Package]bool{}
 	x.frames = nil
 	x.pc = nil
+	x.pcSyms = nil
 	x.pcSet = map[int]bool{}
 	x.pos = 0
 	x.decisions = nil
@@ -1866,6 +2034,11 @@ func (x *Exec) resetPath() {
 	x.cfg.NoPanic = false
 	x.bigVals = nil
 	x.shapers = nil
+	x.weightCtr = 0
+	x.spCtr = 0
+	x.lazyCount = 0
+	x.pcUnchecked = false
+	x.skipIntr = nil
 }
 
 func (x *Exec) initLayout() {
@@ -1949,6 +2122,9 @@ func (x *Exec) runPath(fn *ssa.Function, incomplete, unsupported map[string]bool
 func (x *Exec) reportViolation(kind, msg, site string, cond *Term) {
 	v := Violation{Harness: x.harness, Kind: kind, Msg: msg, Site: site, Model: map[string]string{}, Path: append([]int{}, x.decisions...)}
 	x.sol.Push()
+	for _, c := range x.pc {
+		x.sol.Assert(c)
+	}
 	if cond != nil {
 		x.sol.Assert(cond)
 	}
@@ -1959,7 +2135,7 @@ func (x *Exec) reportViolation(kind, msg, site string, cond *Term) {
 		x.sol.define(t)
 		vars = append(vars, t)
 	}
-	r := x.sol.Check()
+	r, vals := x.sol.CheckModel(vars)
 	x.res.Queries++
 	if r == Unknown && x.cfg.FallbackMs > 0 {
 		var names []string
@@ -1970,39 +2146,30 @@ func (x *Exec) reportViolation(kind, msg, site string, cond *Term) {
 		r, txt, _ = x.sol.Fallback(x.cfg.FallbackMs, names)
 		x.res.FallbackQ++
 		if r == Sat {
-			vals := parseValues(txt)
-			if len(vals) == len(vars) {
-				for i, n := range x.nondetOrd {
-					v.Model[n] = "0x" + vals[i].Text(16)
+			pv := parseValuesMulti(txt)
+			vals = map[int]*big.Int{}
+			if len(pv) == len(vars) {
+				for i, t := range vars {
+					vals[t.ID] = pv[i]
 				}
 			}
-			v.Status = "sat"
-			x.sol.Pop()
-			for _, o := range x.res.Violations {
-				if o.Kind == v.Kind && o.Site == v.Site && o.Msg == v.Msg {
-					return
-				}
-			}
-			x.res.Violations = append(x.res.Violations, v)
-			return
 		}
 	}
 	v.Status = r.String()
 	if r == Sat {
-		vals, err := x.sol.Values(vars)
-		if err == nil {
-			for _, n := range x.nondetOrd {
-				if bv, ok := vals[x.nondet[n].ID]; ok {
-					v.Model[n] = "0x" + bv.Text(16)
-				}
+		for _, n := range x.nondetOrd {
+			if bv, ok := vals[x.nondet[n].ID]; ok {
+				v.Model[n] = "0x" + bv.Text(16)
 			}
-		} else {
-			v.Msg += " (model error: " + err.Error() + ")"
 		}
 	}
 	x.sol.Pop()
 	if r == Unsat {
 		return // not actually feasible
+	}
+	if r == Unknown {
+		x.res.Incomplete = append(x.res.Incomplete, fmt.Sprintf("%s %q at %s: feasibility unknown (solver timeout)", kind, msg, site))
+		return
 	}
 	// dedupe by kind+site+msg
 	for _, o := range x.res.Violations {
